@@ -407,7 +407,8 @@ Definition sexec (e : env) (s : sstate) (q : req) : sstate * reply * bool :=
       | Some c =>
           if out =? OUT_COUNT then
             if glob_everything globs then
-              (s, RInt (Z.max 0 (Z.of_nat (length c) - int_of_uint64 cursor)), false)
+              (* the objects after the first [cursor] ones *)
+              (s, RInt (Z.max 0 (Z.of_nat (length c) - Z.of_N cursor)), false)
             else
               let '(ids, _) := scan_select matches (keys c) cursor (if limit =? 0 then max_uint64 else limit) globs desc in
               (s, RInt (Z.of_nat (length ids)), false)
